@@ -270,9 +270,14 @@ func checkC16(c C16Case) h.Outcome {
 	if c.Relay == "" {
 		benign = ""
 	}
+	snapshot := string(body)
 	body2, _, err := c.build(benign)
 	if err != nil {
 		o.Violation = h.V("build-error/"+c.Flow, "%v", err)
+		return o
+	}
+	if string(body) != snapshot {
+		o.Violation = h.V("page-modified-by-later-call/"+c.Flow, "the page returned for relay state %q changed when the next page was built (it no longer delivers its message and relay state)", c.Relay)
 		return o
 	}
 	p2, err := readPage(body2)
